@@ -162,6 +162,7 @@ public:
 
 	struct SortState {
 		std::set<uint32_t> visitedIndices;
+		std::set<uint32_t> activeIndices; // collision blocks currently being sorted (cycle guard)
 		std::vector<uint32_t> newIndices;
 		uint32_t newIndex = 0;
 		std::vector<uint32_t> rootShapeOrder;
